@@ -1554,10 +1554,11 @@ func (e *Entry) dup() *Entry {
 
 	// The copy shares the backing arrays of its slices with e.  Clip the
 	// ones that are appended to after entries have been copied (errors,
-	// defaults added by deviations, merged augments, extras), so that
-	// appending allocates rather than writes into storage that the other
-	// copies of e share.
+	// defaults added by deviations, merged augments, extras, the extensions
+	// of a uses statement), so that appending allocates rather than writes
+	// into storage that the other copies of e share.
 	ne.Default = ne.Default[:len(ne.Default):len(ne.Default)]
+	ne.Exts = ne.Exts[:len(ne.Exts):len(ne.Exts)]
 	ne.Errors = ne.Errors[:len(ne.Errors):len(ne.Errors)]
 	ne.Augmented = ne.Augmented[:len(ne.Augmented):len(ne.Augmented)]
 
